@@ -34,7 +34,9 @@ def one(line):
     if not ok:
         return sid, False, info
     d = os.path.join(SEEDED, sid)
-    os.makedirs(d, exist_ok=True)
+    if os.path.exists(d):  # never overwrite a filed seed (round letters must be fresh)
+        return sid, False, {"error": f"{d} exists already: choose another worktree name"}
+    os.makedirs(d)
     shutil.copy(patch, os.path.join(d, "patch.diff"))
     shutil.copy(demo, os.path.join(d, "demo.py"))
     meta = {"id": sid, "breaks_property": prop, "summary": summary, "needs_to_manifest": needs, "confirmed": info,
